@@ -22,7 +22,8 @@ Programs == { B("10 PRINT \"HI\"") \o <<LF>> \o B("20 X=X+1:PRINT X"),
               B("10 I=I+1") \o <<LF>> \o B("20 GOTO 10"),
               <<>>,
               B("REM unnumbered") \o <<LF>> \o <<LF>> \o B("10 STOP:PRINT \"S\"") }
-Texts == { B("NEW"), B("RUN"), B("CONT"), B("15 PRINT 7"), B("PRINT 1/0"), B("5"), B("abc"), B("\""), B("PRINT 2:PRINT 3") }
+Texts == { B("NEW"), B("RUN"), B("CONT"), B("15 PRINT 7"), B("PRINT 1/0"), B("5"), B("abc"), B("\""), B("PRINT 2:PRINT 3"),
+           B("  \""), B(" X = 1..2") }          \* indented lines that do not tokenize: the caret must still point at the right column
 
 VARIABLES page, hist
 vars == <<page, hist>>
